@@ -24,6 +24,11 @@ TERMINAL = ('ClientCancelled', 'ServerCancelled', 'ClientClosedChannel', 'Server
 
 
 def run(ctx):
+    _run_main(ctx)
+    _shared_r4(ctx)
+
+
+def _run_main(ctx):
     m, arms, _ = D.read(ctx)
     with ctx.rule('R11.1', 'terminal message => sender was removed/drained; delivery => sender looked up with get; senders never cloned, stored once', floor=10) as r:
         nterm = ndel = 0
@@ -87,3 +92,9 @@ def run(ctx):
         ok = len(ems) == 1 and ems[0].sink == 'call' and ems[0].method == 'Cancel' and ems[0].fields == {'consumer_tag': 'self.consumer_tag', 'nowait': 'false'} \
             and ems[0].reply == 'amq_protocol::protocol::basic::CancelOk' and ems[0].on == 'self.channel'
         r.check('basic_cancel:wire', ok, site, built=[(e.sink, e.method, e.fields, e.reply, e.on) for e in ems])
+
+
+def _shared_r4(ctx):
+    """Rules of other properties that are necessary conditions of this one too (found by seeding round 4)."""
+    with ctx.rule('R11.6', 'the queue holds every delivery until the terminal message: unbounded consumer queues (shared with C03)', floor=1) as r:
+        A.include(ctx, r, 'c03', 'R03.6', pick=('consumer-queue:',))
